@@ -471,7 +471,8 @@ INIT_REGS = (
          PC=0xFFFE, T=69880, IFF=0, IM=2),
     dict(A=0x80, F=0x01, B=0x00, C=0x01, D=0xFF, E=0xFF, H=0x00, L=0x00, IXh=0xFF, IXl=0xFF, IYh=0x40, IYl=0x00,
          SP=0x0001, I=0x40, R=0x00, xA=0, xF=0, xB=0, xC=0, xD=0, xE=0, xH=0, xL=0, PC=0x3FFE, T=14335, IFF=1, IM=2),
-    dict(A=0x00, F=0x44, B=0xFF, C=0xFD, D=0xC0, E=0x00, H=0xC0, L=0x00, IXh=0x7F, IXl=0xFF, IYh=0xBF, IYl=0xFF,
+    # display period, code in contended memory; A and BC give even (ULA) ports with a high byte in 0xC000-0xFFFF
+    dict(A=0xDF, F=0x44, B=0xFF, C=0xFE, D=0xC0, E=0x00, H=0xC0, L=0x00, IXh=0x7F, IXl=0xFF, IYh=0xBF, IYl=0xFF,
          SP=0x8000, I=0xFE, R=0x80, xA=9, xF=9, xB=9, xC=9, xD=9, xE=9, xH=9, xL=9, PC=0x5B00, T=30000, IFF=0, IM=0),
 )
 
@@ -657,6 +658,20 @@ def run_static(pair, machine, letters, seq, im2, t0, interrupts, stats):
     return out
 
 
+def io_cases():
+    """(name, bank paged at 0xC000, start clock, instructions) for part F."""
+    for bank in (0, 1):
+        for phase in range(8):
+            t0 = 14335 + 3 * 224 + phase + (0 if bank == 0 else 0)
+            for hi in (0x00, 0x40, 0x80, 0xC0, 0xFF):
+                for lo in (0xFE, 0xFF, 0xFD):
+                    setup = [(0x01, lo, hi), (0x21, 0x00, 0x90)]            # LD BC,port ; LD HL,9000
+                    for iname, ins in (('IN A,(n)', [(0x3E, hi), (0xDB, lo)]), ('OUT (n),A', [(0x3E, hi), (0xD3, lo)]),
+                                       ('IN E,(C)', [(0xED, 0x58)]), ('OUT (C),E', [(0xED, 0x59)]), ('INI', [(0xED, 0xA2)]),
+                                       ('OUTI', [(0xED, 0xA3)]), ('OUTD', [(0xED, 0xAB)])):
+                        yield '{} port {:02X}{:02X} bank {} phase {}'.format(iname, hi, lo, bank, phase), bank, t0, setup + ins
+
+
 def fast_cases():
     """(name, register overrides, program) for the fast-loop part.  The block move / DJNZ sits at P = 0x8010 in a
     field of NOPs; the destination window slides over the instruction itself (self-modification: the bytes stored
@@ -718,6 +733,9 @@ def _shard(shard, nshards, tier, seed):
             fin = finals if machine == '48K' else finals[:1792]
             for i in inits:
                 plans.append((machine, kinds, with_tracer, i, 2, fin))
+            if with_tracer and 'cmio' in kinds[0]:
+                # the contended pair also from the state inside the display period
+                plans.append((machine, kinds, with_tracer, 3, 2, finals[:1792]))
         else:
             for i in range(len(INIT_REGS)):
                 plans.append((machine, kinds, with_tracer, i, 2, finals))
@@ -796,6 +814,28 @@ def _shard(shard, nshards, tier, seed):
                 stats.violation('E/{}/{}/{}'.format(machine, kinds[1], name), {'part': 'E', 'machine': machine, 'kinds': list(kinds), 'name': name},
                                 '; '.join(d[:3]), tags={'part': 'E', 'machine': machine, 'pair': kinds[1]}, order=4 * 10**6 + i)
         stats.nontriv(('E', machine, kinds))
+    # ---- part F: port accesses of the contended pair inside the display period (every phase of the 8 T-state pattern,
+    # every port class, even and odd bank paged on the 128K)
+    fcases = list(io_cases())
+    for machine in ('48K', '128K'):
+        pair = Pair(('pycmio', 'ccmio'), machine, True)
+        for i, (name, bank, t0, prog) in core.shard_iter(fcases, shard, nshards):
+            if machine == '48K' and bank:
+                continue
+            regs = regs_list(dict(INIT_REGS[0], T=t0, IFF=0), machine)
+            pair.reset(regs)
+            pc = 0x8000
+            for ins in ([(0x01, 0xFD, 0x7F), (0x3E, bank), (0xED, 0x79)] if machine == '128K' else []) + prog + [(0xC3, STOP & 0xFF, STOP >> 8)]:
+                pair.poke(pc, ins)
+                pc += len(ins)
+            d = pair.run(0x8000, STOP, False)
+            stats.evaluations += 1
+            stats.transitions += 2
+            stats.counters['F_contended_io_runs'] += 1
+            if d:
+                stats.violation('F/{}/{}'.format(machine, name), {'part': 'F', 'machine': machine, 'name': name}, '; '.join(d[:3]),
+                                tags={'part': 'F', 'machine': machine}, order=5 * 10**6 + i)
+        stats.nontriv(('F', machine))
     # ---- part C: tool level - trace.py with and without --python (same programs as C10)
     from . import c10
     from .. import tools
@@ -942,14 +982,14 @@ def run(tier, seed):
              'over the program, IM 1 and IM 2, and step-by-step == single run. states = distinct canonical (registers, memory, latch) '
              'hashes reached. D: every (A, operand/F) tuple of every flag-table instruction (ALU A,r; CB rotates; RLCA..CCF; DAA; NEG; INC/DEC; BIT; RLD/RRD) on both pairs. E: the Python simulators configured with fast_djnz/fast_ldir (as trace.py and tap2sna do) against the C '
              'simulators at run(start, stop) level: LDIR/LDDR x BC {{1,2,3,5,256}} x destination window sliding over the instruction itself, the ROM/RAM edge '
-             'and the 64K edge x sources (RAM, ROM, overlapping) x IFF 0/1; DJNZ x displacement x B; a DJNZ whose displacement byte is overwritten'.format(depth, 2),
+             'and the 64K edge x sources (RAM, ROM, overlapping) x IFF 0/1; DJNZ x displacement x B; a DJNZ whose displacement byte is overwritten. F: the contended pair inside the display period: IN/OUT forms x port classes (low byte FE/FF/FD x high byte 00/40/80/C0/FF) x every phase of the wait pattern x even/odd bank paged'.format(depth, 2),
         exhaustive=True,
         bound='A: depth 2 over all slot fillings (thorough: + depth 3 over one filling / unprefixed slots); B: sequence length 2',
         assumptions=['128K without a tracer is explored only with programs that do not write to ports (no tool runs that configuration; '
                      'C pages internally, Python delegates paging to the tracer)',
                      'single-step run(start) ignores interrupts in Python by construction; interrupt timing is compared through run(start, stop, True) '
                      'and accept_interrupt()'],
-        required_guards=['E_fast_loop_runs', 'D_operand_sweep', 'D_arith16', 'D_table_units', 'C_tool_runs', 'B_runs', 'B_interrupt_taken', 'B_interrupts_im1', 'B_interrupts_im2', 'A_inner_states'],
+        required_guards=['F_contended_io_runs', 'E_fast_loop_runs', 'D_operand_sweep', 'D_arith16', 'D_table_units', 'C_tool_runs', 'B_runs', 'B_interrupt_taken', 'B_interrupts_im1', 'B_interrupts_im2', 'A_inner_states'],
     )
     return stats, meta
 
@@ -978,6 +1018,19 @@ def replay(case):
             pair.poke(a, (v,))
         pair.poke(0x8000, tuple(case['code']))
         return pair.step()
+    if case['part'] == 'F':
+        machine = case['machine']
+        pair = Pair(('pycmio', 'ccmio'), machine, True)
+        for name, bank, t0, prog in io_cases():
+            if name == case['name']:
+                regs = regs_list(dict(INIT_REGS[0], T=t0, IFF=0), machine)
+                pair.reset(regs)
+                pc = 0x8000
+                for ins in ([(0x01, 0xFD, 0x7F), (0x3E, bank), (0xED, 0x79)] if machine == '128K' else []) + prog + [(0xC3, STOP & 0xFF, STOP >> 8)]:
+                    pair.poke(pc, ins)
+                    pc += len(ins)
+                return pair.run(0x8000, STOP, False)
+        return ['unknown part F case ' + case['name']]
     if case['part'] == 'E':
         pair = Pair(tuple(case['kinds']), case['machine'], True, fast=True)
         for name, regs_over, prog in fast_cases():
